@@ -81,7 +81,7 @@ def run(ck):
         open(rp, "w").write(h + "\n")
         hj = json.loads(h)
         first = hj["ops"][0]
-        s = first["kind"] if hj.get("monitor") else "NotLinearizable"
+        s = first["kind"] if hj.get("monitor") else ("Hang" if hj.get("hung") else "NotLinearizable")
         ck.rejections.append(dict(module=MODULE, trace_id=idx, line_in_trace=0, event=vlib.abbrev({"ops": len(hj["ops"]), "first": first}), signature=s, replay=rp, invariant=None))
     if inconclusive > max(3, len(lines) // 10):
         raise vlib.Machinery("too many inconclusive linearization searches (%d of %d)" % (inconclusive, len(lines)))
